@@ -250,7 +250,7 @@ def movedim_forward(a:np.ndarray, source:int, destination:int):
     return np.moveaxis(a, source, destination)
 
 def movedim_backward(grad:np.ndarray, source:int, destination:int):
-    return np.moveaxis(grad, source, destination)
+    return np.moveaxis(grad, destination, source)
 
 
 def transpose_forward(a:np.ndarray, axis0:int, axis1:int):
